@@ -884,6 +884,8 @@ enum End {
     LinkFailure,
     DisconnectPacket,
     Takeover,
+    /// the router closes the connection because the client sent an acknowledgement that is not the one due
+    WrongAck,
 }
 
 // @native props=C08 tier=quick fn=Router::{handle_disconnection,handle_new_connection}+Graveyard+Outgoing::retransmission_map
@@ -895,7 +897,7 @@ fn persistent_session_resumes_from_the_oldest_unacknowledged_message() {
     'outer: for k1 in 0..=3usize {
         for acked in 0..=k1 {
             for k2 in 0..=2usize {
-                for end in [End::LinkFailure, End::DisconnectPacket, End::Takeover] {
+                for end in [End::LinkFailure, End::DisconnectPacket, End::Takeover, End::WrongAck] {
                     for cycles in 1..=2usize {
                       for retained_first in [false, true] {
                         if retained_first && acked > 0 {
@@ -939,6 +941,8 @@ fn persistent_session_resumes_from_the_oldest_unacknowledged_message() {
                                 End::LinkFailure => { r.events(c.id, Event::Disconnect); settle(&mut r); }
                                 End::DisconnectPacket => send(&mut r, &c, vec![Packet::Disconnect(crate::protocol::Disconnect { reason_code: crate::protocol::DisconnectReasonCode::NormalDisconnection }, None)]),
                                 End::Takeover => {}
+                                // an acknowledgement that names no (or not the oldest) outstanding publish acknowledges nothing
+                                End::WrongAck => { send(&mut r, &c, vec![puback(77)]); let _ = drain(&mut r, &c); }
                             }
                             // messages accepted while the client is away (or until it is taken over)
                             if cycle == 0 {
